@@ -564,7 +564,11 @@ class RelativeJSONPointer:
     def _int_like(self, obj: Any) -> bool:
         # Only canonical decimal integers are array indices. `int()` alone would
         # also accept things like "+1", " 1", "1_0", "01" and non-ASCII digits.
-        return isinstance(obj, int) or bool(RE_INDEX.fullmatch(obj))
+        # A negative number counts from the end when a pointer is resolved, but
+        # it is not a position an offset can be added to.
+        if isinstance(obj, int):
+            return obj >= 0
+        return bool(RE_INDEX.fullmatch(obj)) and not obj.startswith("-")
 
     def to(
         self,
